@@ -70,6 +70,22 @@ def elem_formula(it, st, meth, tols, ety, S, O, ivar, adts):
     return None
 
 
+def expand_literal_arrays(R):
+    """the slice relation on two literal arrays of equal length is the conjunction over their elements
+    (approx's slice impl: equal lengths, then element-wise)"""
+    m = {}
+    for t0 in subterms(R):
+        if t0[0] == 'approx' and t0[2] == '[f64]':
+            va, vb = t0[3], t0[4]
+            if all(isinstance(v, tuple) and v[0] == 'view' and v[1][0] == 'arr' and v[2] == ('ic', 0) and v[3] == ('ic', len(v[1]) - 1) for v in (va, vb)) \
+                    and len(va[1]) == len(vb[1]):
+                f = TRUE
+                for x, y in zip(va[1][1:], vb[1][1:]):
+                    f = mk_and(f, ('approx', t0[1], 'f64', x, y) + tuple(t0[5:]))
+                m[t0] = f
+    return subst_term(R, m) if m else R
+
+
 def check(cx):
     rep = Report('C17')
     n = {'approx::AbsDiffEq': 0, 'approx::RelativeEq': 0}
@@ -118,7 +134,8 @@ def check(cx):
                     for k, fld in enumerate(fields):
                         per_field.append(field_variants(it, st, meth, tols, fld, sv.fields[k], ov.fields[k], adts))
                     # recognise spelled-out element-wise comparisons and replace them by tokens
-                    R2 = R
+                    R2 = expand_literal_arrays(R)
+                    links = []
                     for k, fld in enumerate(fields):
                         for formula, desc, em in per_field[k]:
                             if em is None:
@@ -133,13 +150,26 @@ def check(cx):
                                         want = elem_formula(it, st, meth, tols, ety, S, O, t0[2], adts)
                                         if want is not None and equivalent(t0[3], want) is True:
                                             R2 = subst_term(R2, {t0: ('ELEMWISE', fld['name'])})
+                                elif t0[0] == 'all' and isinstance(t0[1], tuple) and t0[1][:3] == ('stream', 'range', ('ic', 0)) and \
+                                        t0[1][3] in (('len', S), ('len', O)):
+                                    # index loop over 0..len: the same elements as the zipped walk whenever the lengths agree
+                                    want = elem_formula(it, st, meth, tols, ety, S, O, t0[2], adts)
+                                    if want is not None and equivalent(t0[3], want) is True:
+                                        tok = ('ELEMRANGE', fld['name'], t0[1][3])
+                                        R2 = subst_term(R2, {t0: tok})
+                                        leq = ('icmp', 'eq', ('len', S), ('len', O))
+                                        iff = ('or', ('and', tok, ('ELEMWISE', fld['name'])), ('and', ('not', tok), ('not', ('ELEMWISE', fld['name']))))
+                                        links.append(('or', ('not', leq), iff))
                     ok = False
                     used = None
                     for combo in itertools.product(*[range(len(v)) for v in per_field]) if all(per_field) else []:
                         conj = TRUE
                         for k, j in enumerate(combo):
                             conj = mk_and(conj, per_field[k][j][0])
-                        if equivalent(R2, conj) is True:
+                        asm = None
+                        for l_ in links:
+                            asm = l_ if asm is None else ('and', asm, l_)
+                        if equivalent(R2, conj, asm) is True:
                             ok = True
                             used = [per_field[k][j][1] for k, j in enumerate(combo)]
                             break
